@@ -37,10 +37,10 @@ torch.set_default_dtype(torch.float64)
 
 SPEC = {
     "prop": "C17",
-    "lean_targets": ["InfernoVerif.Props.C17", "InfernoVerif.Props.C17b", "InfernoVerif.Props.C17GlueProg"],
+    "lean_targets": ["InfernoVerif.Props.C17", "InfernoVerif.Props.C17b", "InfernoVerif.Props.C17GlueProg", "InfernoVerif.Props.C17Run"],
     "translate": ["LayerProg"],
     "driver_targets": ["InfernoVerif.Model.Layer", "InfernoVerif.Drv.Proto"],
-    "prop_files": ["InfernoVerif/Props/C17.lean", "InfernoVerif/Props/C17b.lean", "InfernoVerif/Props/C17GlueProg.lean"],
+    "prop_files": ["InfernoVerif/Props/C17.lean", "InfernoVerif/Props/C17b.lean", "InfernoVerif/Props/C17GlueProg.lean", "InfernoVerif/Props/C17Run.lean"],
     "lemma_files": ["InfernoVerif/Lemmas/Layer.lean", "InfernoVerif/Lemmas/LayerInst.lean"],
     "model_files": ["InfernoVerif/Model/Layer.lean"],
     "driver": "drivers/C17.lean",
